@@ -58,6 +58,30 @@ CHECKS = {
    technique="explicit-state BFS on pairs (listener with all options, listener with the option combination) over sender-legal byte classes to the fixpoint, plus the bounded sender space, differential projection oracle",
    text="For each of the 8 combinations of the sysex / timing-clock / active-sense options: the pair search over single-byte Sends reaches its fixpoint (streams of every length); plus sequences up to depth 4/5 with elisions, bytewise and one chunk, every partition with time deltas and each real-time class at every position up to depth 2. The restricted listener must receive exactly what the full listener receives minus the disabled classes, with identical bytes, order and time stamps.",
    note="Differential oracle: the full listener is the reference (its own correctness is C04/C06)."),
+ "C11": dict(level="exploration", engine="enum", design="4/C11",
+   technique="bounded exhaustive enumeration of tempo maps and query ticks against an exact rational (math/big) integral of the tempo map",
+   text="All tempo maps of 0..3 (thorough 4) tempo events over tick gaps {0,1,479,480,100000} x microseconds-per-quarter {0,1,250000,500000,500001,0xFFFFFF} for resolutions {1,24,96,480,960,32767}, written to a two-track file and read back; TimeAt at tick 0, every tempo tick +-2, 2^20 and 2^31-1 (100-day horizon) must be within one microsecond per crossed tempo segment of the exact integral and non-decreasing; TracksReader.Do must hand out exactly TimeAt(abs tick) with correct absolute ticks; Ticks(Duration(n)) == n for boundary n and all n in 0..200000 on four (resolution, tempo) pairs within the stated domain.",
+   note="Trusted: exact integral in the harness. Fractional BPM continuum is covered on the grid induced by the 24-bit field values listed."),
+ "C12": dict(level="exploration", engine="enum", design="4/C12",
+   technique="bounded exhaustive enumeration of multi-track files x track selections x port maps, played on a virtual clock into recording fake ports, against a reference player",
+   text="Files of 1..3 tracks with per-track event counts from {0,1,2,3,7,13,20}, five tick patterns (one tick, step, increasing, interleaved across tracks, later track earlier), with and without interspersed meta and tempo events; every subset of tracks as selection and all 3^(n+1) maps from {default, track 0..n-1} to {absent, A, B}. Each channel message of each selected, mapped track must be sent exactly once, on its mapped port, in file order within its track, merged across tracks by non-decreasing scheduled time, never before its scheduled time on the virtual clock; no meta event is ever sent.",
+   note="time.Sleep in smf/track.go is virtual (import substitution through the overlay). Order among different tracks at equal times is not judged."),
+ "C15": dict(level="exploration", engine="enum", design="4/C15",
+   technique="complete / bounded enumeration of meta constructor arguments, each message checked for FF-type-VLQ-payload layout and inverted by its accessor",
+   text="Nine text constructors and sequencer data over lengths 0..300, 16383, 16384, 20000 (thorough: every length 0..20000) x 4 content patterns; all 256 channels and ports; all 65536 sequence numbers; SMPTE offset fields; time signatures 256 numerators x 8 power-of-two denominators x clock values (thorough: all 255x255); every (0..7 accidentals, flat|sharp, major|minor) key against an independent circle of fifths; the 26 named key constructors; every 24-bit tempo value 1..0xFFFFFF.",
+   note="Trusted: layout reference refsmf.Meta and the key table in the harness."),
+ "C18": dict(level="exploration", engine="enum", design="4/C18",
+   technique="bounded exhaustive enumeration of Roland-style sysex values and MMC values with build/parse inversion, checksum relation, and every single-byte corruption",
+   text="Manufacturer, device and model ids 0..127; every address byte 0..127 (thorough: all 128^3 addresses); payload lengths 1..512 x 3 patterns; request sizes; data-set and data-request: Parse(SysEx()) returns the value, address+payload+checksum = 0 mod 128; for a representative subset every one of the 127 other 7-bit values at every address/payload/checksum position must make Parse fail. MMC locate over every field value (thorough: all 24x60x60x30x100 time codes) x device ids {0,1,127}; MMC commands 1..0x3F x devices 1..127 parse back.",
+   note="Pure functions; no trusted base beyond the harness comparison code."),
+ "C19": dict(level="exploration", engine="enum", design="4/C19",
+   technique="bounded exhaustive enumeration of record sequences x stream fragmentations, and of every single-character mutation of valid lines classified by an independent line grammar",
+   text="All 256 one-byte and 65536 two-byte messages, lengths 1..64, 255, 256, 1000, 2000 (thorough 1..2000) x 6 byte patterns x 5 time stamps over the int32 range, sequences of 2..3 records; decoded one record per call through readers with every single and every pair of split points and one byte per call. Every single-character deletion, substitution and insertion of {Z, g, space, newline, -} on 40 valid lines followed (or preceded) by a valid line: valid lines decode exactly, malformed ones yield an error, no panic, and no record is made up from neighbouring lines.",
+   note="Grammar: -?[0-9]+ ' ' ([0-9A-F][0-9A-F])+ newline. Lower-case hex, garbage in the decimal field, empty message and extra spaces around the fields are 'don't care' (robustness only)."),
+ "C20": dict(level="exploration", engine="enum", design="4/C20",
+   technique="bounded exhaustive enumeration of songs (signatures per bar, event placements, resolutions) exported with ToSMF0/ToSMF1 against a bar model and the strict parser",
+   text="Songs of 1..3 bars: each of the 119 signatures (numerators 1..24 over 1,2,4,8,16,32 whose bar fits in 255 thirty-seconds, plus 'inherit') in bars 1 and 2, a 12-signature subset (thorough: all) in bar 3, resolutions {8,96,960,32760}; event placements over tracks {0,1,7} x positions {0,1,last 32nd} x durations {0,1,to end of bar,across the bar line,to end of song}, notes and non-notes, singly, in pairs and a subset of triples over six signature sequences. Bars start where the previous one ends, events sit at bar start + position, note-offs after their duration, a time-signature event where the signature changes, all tracks end at the end of the last bar, SMF0 and SMF1 hold the same (tick, message) multiset, both pass the strict parser.",
+   note="Order of simultaneous events is not judged (multisets per tick)."),
 }
 
 NOT_YET = "check not built yet in this session (see DESIGN.md section 4 for the planned exploration)"
